@@ -8,6 +8,16 @@ from oracle.refptr import PNode, PtrError, ENOENT, EINVAL
 
 PID = "C12"
 LONGKEYS = [b"k" * 300, b"a/" * 150, b"~0~1" * 64 + b"x", b"e\xc3\xa9" * 100]
+def boundary_key(rng):
+    """a member name whose ESCAPED length sits on / next to a power of two"""
+    target = rng.choice([8, 15, 16, 17, 31, 32, 33, 63, 64, 64, 65, 127, 128, 129, 255, 256, 257, 300])
+    nsp = rng.choice([0, 1, 1, 2, 3])
+    raw = [bytes([rng.choice(b"abcdefgxyz0189 ")]) for _ in range(max(1, target - 2 * nsp))]
+    for _ in range(nsp):
+        raw.insert(rng.randrange(len(raw) + 1), rng.choice([b"~", b"/"]))
+    return b"".join(raw)
+
+
 KEYS = [b"", b"/", b"~", b"~0", b"~1", b"~01", b"a/b", b"m~n", b"0", b"01", b"1", b"-", b"12", b"a", b"b", b"foo", b" ", b"k" * 40, b"~~", b"//", b"e\xc3\xa9", b"%s", b"%d"]
 
 
@@ -28,7 +38,8 @@ def gen_tree(rng, depth=0, budget=None):
         out = ["{"]
         seen = set()
         for _ in range(n):
-            k = rng.choice(KEYS) if rng.random() > 0.03 else rng.choice(LONGKEYS)
+            r_ = rng.random()
+            k = rng.choice(KEYS) if r_ > 0.06 else (rng.choice(LONGKEYS) if r_ < 0.03 else boundary_key(rng))
             if k in seen:
                 k = b"m%d" % len(seen)
             seen.add(k)
@@ -175,7 +186,7 @@ def shard_fn(shard, nshards, seed, tier, exe, ntrees):
                 if m < 0.3:
                     sp = base                                   # replace an existing node (or the root)
                 elif m < 0.6:
-                    sp = base + b"/" + refptr.escape(rng.choice(KEYS))  # new/existing member whose name needs unescaping, or index-like
+                    sp = base + b"/" + refptr.escape(rng.choice(KEYS) if rng.random() > 0.05 else boundary_key(rng))  # new/existing member whose name needs unescaping, or index-like
                 elif m < 0.8:
                     sp = base + b"/" + rng.choice([b"-", b"0", b"1", b"2", b"3", b"5", b"01", b"x", b""])
                 else:
